@@ -82,6 +82,40 @@ CLAIMED = {
          'every energy-creating input is explained by cR>1; anything else is a violation.',
          'Trusted: Lean kernel, standard axioms, fracexec + stub table (true rational roots supplied for Pythagorean aspects); '
          'the radiosity specification.', 'DESIGN.md section 4 C13'),
+ 'C01': ('Lean 4 theorems (core Lean, List Char automaton, Int/Nat rounding arithmetic) about a model of the csv reader subset, '
+         'the repaired writer, fixed-point formatting and write_epw, tied to csv.reader, CPython format and the real write_epw byte for byte',
+         'Proof: parse(render(row)) = row for every newline-free row, write_epw changes exactly columns 6,7,8,21 of the window '
+         'rows and preserves every other cell and every field count, formatted numbers have the shape -?d+(.d{p})? with correct '
+         'half-even rounding, and the default output name differs from the input name. The model is checked against csv.reader on '
+         'all short strings over {a , "} plus random ones, against CPython formatting on exact doubles, and against the real '
+         'write_epw on synthetic and end-to-end files; the statement is also evaluated independently on every written file.',
+         'Trusted: Lean kernel (core only), the percent-encoding of the line protocol, Python csv as oracle for the reader tie. '
+         'Text encoding, CRLF translation, -0.0/NaN/Inf and file-system aliasing are outside the model (hashing observes the rural file).',
+         'DESIGN.md section 4 C01'),
+ 'C14': ('Lean 4 theorems over every ordered field about a branch-faithful model of Building.BEMCalc, tied by exact rational '
+         'execution of the real routine on generated and captured live states; known-finding logic for free cooling',
+         'Proof: exclusivity, capacity bounds, exact set-point tracking below capacity (via load(T) = H1 - H2*T + gains, so a '
+         'dropped term breaks it), energy = load/COP resp. /efficiency, rejected-heat formulas and non-negativity under stated '
+         'hypotheses. Free cooling (no branch taken but load removed) is proved to exceed capacity with zero energy and is a '
+         'recorded known finding.',
+         'Trusted: Lean kernel, standard axioms, fracexec; psychrometrics is an uninterpreted parameter (indoorRhum not compared); '
+         'live float runs use a 1e-9 relative tolerance.', 'DESIGN.md section 4 C14'),
+ 'C15': ('Lean 4 theorems over every ordered field (convex-combination arguments, induction over buildings and UBL cells) about '
+         'models of UCModel, the indoor balance, ublmodel and nightforc, tied by exact rational execution and live wrapped runs',
+         'Proof: isothermal fixed point, convexity (range of exchanged temperatures) and monotonicity in the source for the canyon, '
+         'indoor and boundary-layer nodes, and the night boundary-layer temperature as the mean of its cells under the loop-count '
+         'hypothesis (whose range of validity is enumerated).',
+         'Trusted: Lean kernel, standard axioms, fracexec + stub table for **(1/3). Indoor monotonicity is stated per HVAC branch. '
+         'Night loop count int(charLength)//int(paralLength) equals the cell count for charLength 1..62498 (enumerated, hypothesis of night_mean).',
+         'DESIGN.md section 4 C15'),
+ 'C19': ('translator regenerates a packed Lean table of both libraries from the working tree on every run; Lean kernel decides '
+         'table equality and well-formedness (decide +kernel) and a theorem bridges well-formedness to the conduction solver (C11)',
+         'Proof over the regenerated table: shipped pickle = reader output for all 768 archetypes (structural fields bit-exact '
+         'plus SHA-256 of every attribute), all archetypes well-formed, every well-formed construction solvable by Conduction '
+         'for any timestep/temperatures/fluxes. Simulability in hot and cold climates is executed (6 archetypes quick, all 768 x 2 '
+         'thorough), not proved.',
+         'Trusted: Lean kernel (no axioms: decide +kernel), the extractor harness/extract/reftables.py, SHA-256 for attributes not '
+         'exported structurally, pickle.', 'DESIGN.md section 4 C19'),
 }
 NOT_YET = 'check not built yet in this session (work in progress; see DESIGN.md section 4)'
 
